@@ -30,6 +30,7 @@ import (
 	"github.com/versity/versitygw/auth"
 	"github.com/versity/versitygw/backend"
 	"github.com/versity/versitygw/s3err"
+	"github.com/versity/versitygw/verifhook"
 	"golang.org/x/sys/unix"
 )
 
@@ -165,10 +166,12 @@ func (tmp *tmpfile) link() error {
 	// of last upload completed wins and is not some combination of writes
 	// from simultaneous uploads.
 	objPath := filepath.Join(tmp.bucket, tmp.objname)
+	verifhook.At("posix.link.enter")
 	err := os.Remove(objPath)
 	if err != nil && !errors.Is(err, fs.ErrNotExist) {
 		return fmt.Errorf("remove stale path: %w", err)
 	}
+	verifhook.At("posix.link.removed")
 
 	dir := filepath.Dir(objPath)
 
@@ -211,6 +214,7 @@ func (tmp *tmpfile) link() error {
 		break
 	}
 
+	verifhook.At("posix.link.published")
 	err = tmp.f.Close()
 	if err != nil {
 		return fmt.Errorf("close tmpfile: %w", err)
@@ -234,7 +238,9 @@ func (tmp *tmpfile) fallbackLink() error {
 	}
 
 	objPath := filepath.Join(tmp.bucket, tmp.objname)
+	verifhook.At("posix.link.beforerename")
 	err = os.Rename(tempname, objPath)
+	verifhook.At("posix.link.published")
 	if err != nil {
 		// rename only works for files within the same filesystem
 		// if this fails fallback to copy
